@@ -31,8 +31,11 @@ def World.hcount (w : World) (q : Pid) (r : Nat) : Nat := (w.proc q).held.count 
       = w.rv r := rfl
 
 /-- the processes whose end process `p` is registered to be told about (the `.proc` entries of its awaits) -/
-def World.pa (w : World) (p : Pid) : List Pid :=
-  (w.proc p).awaits.filterMap fun a => match a with | .proc q => some q | _ => none
+def procOf : Await → Option Pid
+  | .proc q => some q
+  | _ => none
+
+def World.pa (w : World) (p : Pid) : List Pid := (w.proc p).awaits.filterMap procOf
 
 theorem pa_congr {w w' : World} (h : ∀ q, (w'.proc q).awaits = (w.proc q).awaits) (q : Pid) : w'.pa q = w.pa q := by
   unfold World.pa; rw [h]
